@@ -34,6 +34,8 @@ def fmtVal (enc : String) : Option Bytes → String
     | "i8" | "i16" | "i32" | "i64" | "int" => toString (Slim.leSigned b)
     | "u16" | "u32" | "u64" => toString (leVal b)
     | "s16" => String.ofList ((b.drop 2).map (fun c => Char.ofNat c.toNat))
+    | "te7" => "{" ++ toString (Slim.leSigned (b.take 4)) ++ " " ++ toString (leVal ((b.drop 4).take 2)) ++ " " ++
+        toString (leVal ((b.drop 6).take 1)) ++ "}"
     | _ => "[" ++ " ".intercalate (b.map (fun c => toString c.toNat)) ++ "]"
 
 def kvStr (k v : Option Bytes) : String :=
@@ -59,6 +61,7 @@ def encSizeOf (enc : String) : Option Nat :=
   | "i16" | "u16" => some 2
   | "i32" | "u32" => some 4
   | "i64" | "u64" | "int" => some 8
+  | "te7" => some 7
   | _ => if enc.startsWith "bytes" then (enc.drop 5).toNat? else none
 
 def init : State := {}
